@@ -3,6 +3,7 @@ HOOK_COMMITS = [
     "b525638c12b54439ad442e79710965d9e223a9fb",
     "644f8cecf948ecafb9e7627c045ec64c82809839",
     "7ccf34a546b79afa66fdb7cecdf975d670e672dc",
+    "c3593bab13c561434885605f56c41d038d8e7d9a",
 ]
 NOT_APPLICABLE = []
 T = "runtime monitoring: "
@@ -78,7 +79,7 @@ TEXTS = {
         "level_note": "trusts the 30-line canonical formatter and the harness encoder",
     },
     "C20": {
-        "technique": T + "reference-model monitor (std::io::Cursor over the concatenation) of every read/seek of SeekableChain; sandbox monitor of extraction (reported paths, contents vs archive members written by an independent raw zip writer, directory listing before/after)",
+        "technique": T + "reference-model monitor (std::io::Cursor over the concatenation) of every read/seek of SeekableChain and, per clone, of the crate private cloneable reader that unzip.rs wraps around the chain (hook verif_cloneable_reader); sandbox monitor of extraction (reported paths, contents vs archive members written by an independent raw zip writer, directory listing before/after)",
         "level_text": "Exploration: >10^6 read/seek histories and >2*10^4 hostile archives per quick run; Miri and valgrind shards for the extraction copy loop in thorough.",
         "level_note": "archives are 'stored' zip files from the harness' own writer; compression paths of the zip crate are dependency code",
     },
